@@ -4,9 +4,11 @@ package props
 import (
 	_ "verif/props/c01"
 	_ "verif/props/c02"
+	_ "verif/props/c09"
 	_ "verif/props/c11"
 	_ "verif/props/c12"
 	_ "verif/props/c13"
 	_ "verif/props/c14"
+	_ "verif/props/c15"
 	_ "verif/props/c19"
 )
